@@ -149,6 +149,7 @@ instance : ToByte UInt8 := ⟨id⟩
 /-- `byte(i)` for a Go int: the low eight bits (two's complement) -/
 instance : ToByte Int := ⟨fun i => UInt8.ofNat (i % 256).toNat⟩
 instance : ToByte UInt32 := ⟨fun w => w.toUInt8⟩
+instance : ToByte UInt64 := ⟨fun w => w.toUInt8⟩
 
 class ToU32 (α : Type) where toU32 : α → UInt32
 instance : ToU32 UInt32 := ⟨id⟩
